@@ -985,6 +985,8 @@ void BW_MidiSequencer::buildTimeLine(const std::vector<MidiEvent> &tempos,
     }
 
     m_fullSongTimeLength += m_postSongWaitDelay;
+    // Playback has not changed the tempo yet: remember what the song starts with
+    m_tempoAtBegin = m_tempo;
     // The song is ready to play
     m_atEnd = false;
     // Set begin of the music
@@ -2239,6 +2241,8 @@ void BW_MidiSequencer::rewind()
 {
     m_currentPosition   = m_trackBeginPosition;
     m_atEnd             = false;
+    if(!m_trackBeginPosition.track.empty())
+        m_tempo         = m_tempoAtBegin; // The tempo changes of the previous pass don't apply to the begin of the song
 
     m_loop.loopsCount = m_loopCount;
     m_loop.reset();
